@@ -388,9 +388,10 @@ func (fc *FuncCtx) evalBin(env *Env, x EBin) Val {
 	case "*":
 		return mathInt("(* " + a.T + " " + b.T + ")")
 	case "/":
-		return mathInt("(tdiv " + a.T + " " + b.T + ")")
+		// specification integers: floor division (coincides with Go for non-negative operands)
+		return mathInt("(div " + a.T + " " + b.T + ")")
 	case "%":
-		return mathInt("(tmod " + a.T + " " + b.T + ")")
+		return mathInt("(mod " + a.T + " " + b.T + ")")
 	}
 	specFail("unknown operator %s", x.Op)
 	return Val{}
@@ -846,16 +847,16 @@ func (fc *FuncCtx) callPure(env *Env, pf *PureFunc, args []Val) Val {
 		for _, p := range pf.Params {
 			ps = append(ps, fc.sortOfTypeExpr(p.Type, ppkg))
 		}
-		fc.specHdr = append(fc.specHdr, fmt.Sprintf("(declare-fun %s (%s) %s)", name, strings.Join(ps, " "), fc.sortOfTypeExpr(pf.Result, ppkg)))
-		fc.emitAxiomsMentioning(pf.Name)
+		rs := fc.sortOfTypeExpr(pf.Result, ppkg)
 		if pf.Opaque && pf.Body != nil {
-			// definitional axiom; the body must not depend on the program state
-			e2 := &Env{fc: fc, vars: map[string]Val{}, lets: map[string]Expr{}, st: fc.init, old: fc.init, pkg: ppkg}
+			// definitional axiom; heap components the body reads become extra arguments
+			var rec []string
+			bst := &State{m: map[string]string{}, bind: &rec}
+			e2 := &Env{fc: fc, vars: map[string]Val{}, lets: map[string]Expr{}, st: bst, old: bst, pkg: ppkg}
 			var binds, bn []string
 			for i, p := range pf.Params {
 				n := fmt.Sprintf("o%d?%s", i, sanitize(pf.Name))
-				so := fc.sortOfTypeExpr(p.Type, ppkg)
-				binds = append(binds, "("+n+" "+so+")")
+				binds = append(binds, "("+n+" "+ps[i]+")")
 				bn = append(bn, n)
 				if p.Type.Kind == "name" && p.Type.Name == "mathint" {
 					e2.vars[p.Name] = mathInt(n)
@@ -864,13 +865,33 @@ func (fc *FuncCtx) callPure(env *Env, pf *PureFunc, args []Val) Val {
 				}
 			}
 			body := fc.eval(e2, pf.Body)
-			app := "(" + name + " " + strings.Join(bn, " ") + ")"
-			fc.specHdr = append(fc.specHdr, "(assert (forall ("+strings.Join(binds, " ")+") (! (= "+app+" "+body.T+") :pattern ("+app+"))))")
+			for _, k := range rec {
+				binds = append(binds, "("+bst.m[k]+" "+fc.compSort[k]+")")
+				bn = append(bn, bst.m[k])
+				ps = append(ps, fc.compSort[k])
+			}
+			fc.opaqueComps[name] = rec
+			fc.specHdr = append(fc.specHdr, fmt.Sprintf("(declare-fun %s (%s) %s)", name, strings.Join(ps, " "), rs))
+			app := name
+			if len(bn) > 0 {
+				app = "(" + name + " " + strings.Join(bn, " ") + ")"
+			}
+			if len(binds) > 0 {
+				fc.specHdr = append(fc.specHdr, "(assert (forall ("+strings.Join(binds, " ")+") (! (= "+app+" "+body.T+") :pattern ("+app+"))))")
+			} else {
+				fc.specHdr = append(fc.specHdr, "(assert (= "+app+" "+body.T+"))")
+			}
+		} else {
+			fc.specHdr = append(fc.specHdr, fmt.Sprintf("(declare-fun %s (%s) %s)", name, strings.Join(ps, " "), rs))
+			fc.emitAxiomsMentioning(pf.Name)
 		}
 	}
 	var ts []string
 	for _, a := range args {
 		ts = append(ts, a.T)
+	}
+	for _, k := range fc.opaqueComps[name] {
+		ts = append(ts, fc.get(env.st, k))
 	}
 	t := name
 	if len(ts) > 0 {
